@@ -54,6 +54,20 @@ def synthetic(m):
     s["SW"] = Speed.unit("verif sw", "vsw")
     s["SW"].equals(2 * s["SV"])
     s["FQ"] = Frequency.unit("verif fq", "vfq")
+    # an isolated force unit, a force and a speed unit defined as a product / quotient, and
+    # dimensionless units: a connected pair and a lonely one
+    from measured import Force, Number
+    from measured.si import Gram
+
+    s["FN"] = Force.unit("verif fn", "vfn")
+    s["FS"] = Force.unit("verif fs", "vfs")
+    s["FS"].equals(11 * Gram * s["X1"] / Second**2)
+    s["SZ"] = Speed.unit("verif sz", "vsz")
+    s["SZ"].equals(7 * s["X1"] / Second)
+    s["DT"] = Number.unit("verif dt", "vdt")
+    s["DQ"] = Number.unit("verif dq", "vdq")
+    s["DT"].equals(4 * s["DQ"])
+    s["DL"] = Number.unit("verif dl", "vdl")
     prev = None
     for i in range(41):
         c = Time.unit(f"verif c{i}", f"vc{i}")
@@ -101,8 +115,11 @@ def case_list(thorough):
                         cases.append(["pre", i, e, p, j, f, "kilo"])
     # compound shapes over the synthetic system (isolated and partially connected units
     # inside products and quotients with ordinary units)
-    comp_atoms = ["X1", "X3", "X4", "ZA", "PA", "SV", "SW", "FQ", "Meter", "Second"]
-    syn_set = set(comp_atoms) - {"Meter", "Second"}
+    comp_atoms = ["X1", "X3", "X4", "ZA", "PA", "SV", "SW", "FQ", "Meter", "Second",
+                  "FN", "FS", "SZ", "Gram", "DT", "DQ", "DL", "Radian", "Degree"]
+    if not thorough:
+        comp_atoms = [a for a in comp_atoms if a not in ("X3", "SW", "FQ", "DL", "Radian", "SV")]
+    syn_set = set(comp_atoms) - {"Meter", "Second", "Gram"}
     shapes = []
     exps1 = (1, -1, 2)
     for a in comp_atoms:
@@ -113,15 +130,17 @@ def case_list(thorough):
     for a, b in _it.combinations(comp_atoms, 2):
         for e in ((1, 1), (1, -1), (-1, 1), (-1, -1)) + (((2, -1), (-1, 2), (1, 2)) if thorough else ()):
             shapes.append(((a, e[0]), (b, e[1])))
-    tri_atoms = comp_atoms if thorough else ["X4", "PA", "SV", "FQ", "Meter", "Second"]
+    tri_atoms = (["X1", "X4", "ZA", "PA", "SV", "SW", "Meter", "Second", "FN", "FS", "SZ", "Gram", "DT", "DQ"] if thorough
+                 else ["X4", "PA", "Second", "FN", "FS", "SZ", "DT", "DQ"])
     for a, b, c in _it.combinations(tri_atoms, 3):
         for e in _it.product((1, -1), repeat=3):
             shapes.append(((a, e[0]), (b, e[1]), (c, e[2])))
-    vec = {"X1": (1, 0), "X3": (1, 0), "X4": (1, 0), "ZA": (2, 0), "PA": (2, 0), "SV": (1, -1), "SW": (1, -1),
-           "FQ": (0, -1), "Meter": (1, 0), "Second": (0, 1)}
+    vec = {"X1": (1, 0, 0), "X3": (1, 0, 0), "X4": (1, 0, 0), "ZA": (2, 0, 0), "PA": (2, 0, 0), "SV": (1, -1, 0), "SW": (1, -1, 0),
+           "FQ": (0, -1, 0), "Meter": (1, 0, 0), "Second": (0, 1, 0), "FN": (1, -2, 1), "FS": (1, -2, 1), "SZ": (1, -1, 0),
+           "Gram": (0, 0, 1), "DT": (0, 0, 0), "DQ": (0, 0, 0), "DL": (0, 0, 0), "Radian": (0, 0, 0), "Degree": (0, 0, 0)}
     by_dim = {}
     for sh in shapes:
-        d = (sum(vec[n][0] * e for n, e in sh), sum(vec[n][1] * e for n, e in sh))
+        d = tuple(sum(vec[n][k] * e for n, e in sh) for k in range(3))
         by_dim.setdefault(d, []).append(sh)
     for d, group in sorted(by_dim.items()):
         for sa in group:
